@@ -36,10 +36,11 @@ import (
 // Beware when accessing the Replacer value; it may be nil!
 type ResponseRecorder struct {
 	*ResponseWriterWrapper
-	Replacer Replacer
-	status   int
-	size     int
-	start    time.Time
+	Replacer    Replacer
+	status      int
+	size        int
+	start       time.Time
+	wroteHeader bool
 }
 
 // NewResponseRecorder makes and returns a new ResponseRecorder.
@@ -56,14 +57,23 @@ func NewResponseRecorder(w http.ResponseWriter) *ResponseRecorder {
 
 // WriteHeader records the status code and calls the
 // underlying ResponseWriter's WriteHeader method.
+// As in net/http, only the call that commits the response
+// counts: once a status has been sent (explicitly, or as the
+// implicit 200 of a Write) later calls do not change what
+// the client received, and 1xx informational headers
+// (other than 101) do not commit the response.
 func (r *ResponseRecorder) WriteHeader(status int) {
-	r.status = status
+	if !r.wroteHeader && (status < 100 || status > 199 || status == http.StatusSwitchingProtocols) {
+		r.wroteHeader = true
+		r.status = status
+	}
 	r.ResponseWriterWrapper.WriteHeader(status)
 }
 
 // Write is a wrapper that records the size of the body
 // that gets written.
 func (r *ResponseRecorder) Write(buf []byte) (int, error) {
+	r.wroteHeader = true
 	n, err := r.ResponseWriterWrapper.Write(buf)
 	if err == nil {
 		r.size += n
